@@ -1132,6 +1132,8 @@ class Executor:
     if isinstance(v, int):
       return VInt(v)
     if isinstance(v, str):
+      if self.contract.strings == 'native':
+        return VStr(z3.StringVal(v))
       return VStr(v)
     self.oos(f'constant {v!r}', node)
 
@@ -1168,6 +1170,11 @@ class Executor:
     return self.str_build('fstr', parts, node)
 
   def str_build(self, tag, parts, node):
+    if self.contract.strings == 'native':
+      es = [p.e if p.native else None for p in parts]
+      if any(e is None for e in es):
+        self.oos('mixing native and abstract strings', node)
+      return VStr(z3.Concat(*es) if len(es) > 1 else es[0])
     pat = tag + ':' + '|'.join(
         ('L' + (p.concrete() or '?')) if p.concrete() is not None else '{}'
         for p in parts)
@@ -1251,6 +1258,8 @@ class Executor:
         return VInt(a.e - b.e)
       if op == 'Mult':
         return VInt(a.e * b.e)
+    if op == 'Add' and isinstance(a, VStr) and isinstance(b, VStr) and a.native:
+      return VStr(z3.Concat(a.e, b.e))
     if op == 'Add' and isinstance(a, VStr) and isinstance(b, VStr):
       ca, cb = a.concrete(), b.concrete()
       if ca is not None and cb is not None:
@@ -1444,6 +1453,19 @@ class Executor:
                        z3.Not(obj.is_none))
       self.path.assume(z3.Not(obj.is_none))
       obj = obj.inner
+    if isinstance(obj, VStr) and obj.native:
+      n = z3.Length(obj.e)
+      if isinstance(idx, tuple):
+        _, lo, hi, step = idx
+        if step is None and hi is None and isinstance(lo, VInt) and (lo.concrete() or 0) >= 0:
+          k = lo.e
+          return VStr(z3.SubString(obj.e, k, n - k))
+        self.oos('slice of a native string', node)
+      if isinstance(idx, VInt) and idx.concrete() is not None and idx.concrete() >= 0:
+        if not self.path.decide(n > idx.e):
+          self.py_raise('IndexError', node)
+        return VStr(z3.SubString(obj.e, idx.e, 1))
+      self.oos('index of a native string', node)
     if isinstance(idx, tuple) and idx and idx[0] == 'slice':
       _, lo, hi, step = idx
       if isinstance(obj, VTuple):
